@@ -60,11 +60,30 @@ fn offset_ranges(len: usize, h: usize) -> (usize, usize) {
     (to_one, to_two - middle)
 }
 
-struct Acc<'a> {
-    run: &'a mut Run,
+struct LocalRun {
+    viols: Vec<(String, String, serde_json::Value)>,
+}
+
+impl LocalRun {
+    fn violation(&mut self, sig: impl Into<String>, what: impl Into<String>, detail: serde_json::Value) {
+        let sig = sig.into();
+        if self.viols.len() < 50 || !self.viols.iter().any(|v| v.0 == sig) {
+            self.viols.push((sig, what.into(), detail));
+        }
+    }
+}
+
+struct Acc {
+    run: LocalRun,
     evals: u64,
     cases: u64,
     outcomes: HashSet<u64>,
+}
+
+impl Acc {
+    fn new() -> Acc {
+        Acc { run: LocalRun { viols: Vec::new() }, evals: 0, cases: 0, outcomes: HashSet::new() }
+    }
 }
 
 // ------------------------------------------------------------------------------------------ HTTP
@@ -119,11 +138,11 @@ mod http {
         ts.first().map(|t| t.peers.iter().map(|p| (p.ip, p.port)).collect()).unwrap_or_default()
     }
 
-    pub fn sweep(acc: &mut Acc, max_n: usize) {
+    pub fn sweep(acc: &mut Acc, v4s: &[bool], perms: &[bool], ns: &[usize]) {
         let numwants: Vec<Option<usize>> = vec![None, Some(0), Some(1), Some(2), Some(3), Some(usize::MAX)];
-        for v4 in [true, false] {
-            for permuted in [false, true] {
-                for n in 0..=max_n {
+        for &v4 in v4s {
+            for &permuted in perms {
+                for &n in ns {
                     let (mut maps, members) = build(v4, n, permuted);
                     let member_set: BTreeSet<(IpAddr, u16)> = members.iter().cloned().collect();
                     let ord = order(&maps, v4);
@@ -244,11 +263,11 @@ mod udp {
         crate::udp_sys::key_addr(v4, i as u8)
     }
 
-    pub fn sweep(acc: &mut Acc, max_n: usize) {
+    pub fn sweep(acc: &mut Acc, v4s: &[bool], perms: &[bool], ns: &[usize]) {
         let wanted: Vec<i32> = vec![i32::MIN, -1, 0, 1, 2, 3, i32::MAX];
-        for v4 in [true, false] {
-            for permuted in [false, true] {
-                for n in 0..=max_n {
+        for &v4 in v4s {
+            for &permuted in perms {
+                for &n in ns {
                     // keys 0..n (u8 key space: 64 + 32 fits)
                     let total = if permuted { n + n / 2 + 1 } else { n };
                     let build = |m: usize| -> (UdpWorld, Vec<usize>) {
@@ -395,9 +414,9 @@ mod ws {
     use super::*;
     use aquatic_ws::workers::swarm::verif_storage::extract_response_peers;
 
-    pub fn sweep(acc: &mut Acc, max_n: usize) {
-        for permuted in [false, true] {
-            for n in 0..=max_n {
+    pub fn sweep(acc: &mut Acc, perms: &[bool], ns: &[usize]) {
+        for &permuted in perms {
+            for &n in ns {
                 let mut map: IndexMap<u32, u32> = IndexMap::default();
                 let total = if permuted { n + n / 2 + 1 } else { n };
                 for i in 0..total as u32 {
@@ -485,38 +504,52 @@ mod ws {
 pub fn main(args: &Args) -> ! {
     let mut run = Run::new(args, "exploration");
     run.set("rule", "swarm size n x configured maximum x requested count x requester position x storage order (insertion / permuted by removals) x both families x every outcome of the two random offsets (scripted generator for HTTP and WS, seed sweep with measured full pair coverage for UDP); a case is one (tracker, family, order, n, max, requested, position); distinct_nontrivial counts distinct (tracker, size class, limit, returned length) outcomes");
-    run.assume("n > 64 not explored (selection arithmetic depends only on n, the limit and the offsets)");
+    run.assume("n > 64 (thorough: 128) not explored (selection arithmetic depends only on n, the limit and the offsets)");
     run.assume("requester-present cases use boundary offsets only: the selection runs after the requester's removal, i.e. on a requester-absent swarm, for which every offset pair is enumerated");
-    let max_n = if args.tier.thorough() { 64 } else { 40 };
+    let max_n = if args.tier.thorough() { 128 } else { 64 };
 
-    if let Some(p) = &args.replay {
-        // cases are cheap: re-run the sweep of the tracker named in the replay file up to its n
-        let r = load_replay(p);
-        let c = &r["detail"];
-        let n = c["n"].as_u64().unwrap_or(24) as usize;
-        let mut acc = Acc { run: &mut run, evals: 0, cases: 0, outcomes: Default::default() };
-        match c["tracker"].as_str() {
-            Some("http") => http::sweep(&mut acc, n),
-            Some("udp") => udp::sweep(&mut acc, n),
-            _ => ws::sweep(&mut acc, n),
-        }
-        let e = acc.evals;
-        run.set("evaluations", e);
-        run.set("distinct_nontrivial", 2);
-        run.finish();
+    if args.replay.is_some() {
+        eprintln!("replay: cases are cheap, re-running the sweep");
     }
-
     if !ws::calibrate() {
         machinery_failure("scripted RNG does not map to the intended offsets (rand changed its sampling?)");
     }
-    let mut acc = Acc { run: &mut run, evals: 0, cases: 0, outcomes: Default::default() };
-    ws::sweep(&mut acc, max_n);
-    let e_ws = acc.evals;
-    http::sweep(&mut acc, max_n);
-    let e_http = acc.evals - e_ws;
-    udp::sweep(&mut acc, max_n);
-    let e_udp = acc.evals - e_ws - e_http;
-    let (evals, cases, outcomes) = (acc.evals, acc.cases, acc.outcomes.len() as u64);
+    // jobs: (tracker, family, order, swarm size), spread over the cores
+    let mut jobs: Vec<(u8, bool, bool, usize)> = Vec::new();
+    for n in (0..=max_n).rev() {
+        for permuted in [false, true] {
+            jobs.push((0, true, permuted, n));
+            for v4 in [true, false] {
+                jobs.push((1, v4, permuted, n));
+                jobs.push((2, v4, permuted, n));
+            }
+        }
+    }
+    let results: Vec<(u8, Acc)> = par_map(&jobs, num_threads(), |(t, v4, permuted, n)| {
+        let mut acc = Acc::new();
+        match t {
+            0 => ws::sweep(&mut acc, &[*permuted], &[*n]),
+            1 => http::sweep(&mut acc, &[*v4], &[*permuted], &[*n]),
+            _ => udp::sweep(&mut acc, &[*v4], &[*permuted], &[*n]),
+        }
+        (*t, acc)
+    });
+    let (mut evals, mut cases, mut e_ws, mut e_http, mut e_udp) = (0u64, 0u64, 0u64, 0u64, 0u64);
+    let mut all_outcomes: HashSet<u64> = HashSet::new();
+    for (t, acc) in results {
+        evals += acc.evals;
+        cases += acc.cases;
+        match t {
+            0 => e_ws += acc.evals,
+            1 => e_http += acc.evals,
+            _ => e_udp += acc.evals,
+        }
+        all_outcomes.extend(acc.outcomes);
+        for (sig, what, d) in acc.run.viols {
+            run.violation(sig, what, d);
+        }
+    }
+    let outcomes = all_outcomes.len() as u64;
     run.set("evaluations", evals);
     run.set("cases", cases);
     run.set("selection_calls_ws", e_ws);
